@@ -89,7 +89,12 @@ def run_history(kind, iface, history):
     try:
         fname = "page.html" if kind == "Pages" else "f.txt"
         p = os.path.join(d, fname)
+        # ('start', fraction) as the first event: the fraction of a second at which the virtual clock starts (0.0 = a file
+        # system or clock with whole-second time stamps, where "one second later" is EXACTLY the next HTTP-date)
         now = [1700000000.25]
+        if history and history[0][0] == "start":
+            now = [1700000000 + history[0][1]]
+            history = history[1:]
         content = [b"0123456789"]
         version = [0]
 
@@ -244,6 +249,11 @@ def bounded(tier, seed):
         for form in forms:
             h = [("get",)] + ([m] if m else []) + [("cond", 0, form)]
             hists.append(h)
+    # whole-second time stamps (and a fraction just below the next second)
+    for frac in (0.0, 0.999):
+        for m in mods:
+            for form in forms:
+                hists.append([("start", frac), ("get",), m, ("cond", 0, form)])
     for m1, m2 in itertools.product(mods, repeat=2):
         for form in (forms if tier == "thorough" else ["etag", "date", "both", "list_last", "two_lines_first"]):
             hists.append([("get",), m1, ("get",), m2, ("cond", 0, form), ("cond", 1, form)])
